@@ -94,11 +94,14 @@ _DIFFMODEL = ('Model = Lean port of DeepDiff._diff and its _diff_* family (dispa
 CLAIMED['C02'] = dict(
     text='Lean 4 theorem: for every well-formed value of any size/nesting, every ordered configuration (both alignment modes, every threshold in [0,1], private keys, '
          'exclude/include paths), every reflexive alignment oracle and every hasher, the diff of a value with a structural copy is empty in every view and verbosity. '
-         'Lean negative witness for the spoofed-set case. ' + _DIFFMODEL + 'The converse (empty => ==) is decided on the implementation over single-edit neighbours and '
-         'random edits x view x verbosity x threshold x zip x cache_size x max_passes (and ignore_order for copies); its Lean theorem is not proved yet.',
+         'Conversely (C02_empty_implies_equal): without path restrictions, for both alignment modes, every threshold, any size and nesting, an empty result implies t1 == t2 '
+         '(Python equality, pyEq) - for every difflib oracle whose all-equal answers are right (AlignSound, checked against the real difflib on every run), dictionary keys from a '
+         'universe on which == is identity and that holds no ignored private key, sets without repeated members whose item hash is injective (proved for the DeepHash model and '
+         'every injective hasher inside NoSpoof: C02_set_members_deephash). Lean negative witness for the spoofed-set case. ' + _DIFFMODEL + 'On the implementation the converse '
+         'is also evaluated over single-edit neighbours, random edits and rich leaf types x view x verbosity x threshold x zip x cache_size x max_passes (and ignore_order for copies).',
     design='5/C02',
-    note='Trusted: Lean kernel; difflib reflexivity (checked by the harness on the real difflib). Partial: empty=>equal is evaluated, not proved; input non-mutation, numpy and datetimes observed only. F5e.',
-    technique='Lean 4 proof (mutual structural induction over the value) + differential correspondence; converse by evaluation')
+    note='Trusted: Lean kernel; difflib reflexivity and soundness of all-equal answers (both checked by the harness on the real difflib); SHA-256 collision freedom for the set case. Input non-mutation, numpy, datetimes and the tree view observed only. Known findings F5e, F39.',
+    technique='Lean 4 proof (mutual structural induction over the value, both directions) + differential correspondence')
 CLAIMED['C03'] = dict(
     text='Lean 4 theorems: in positional mode the model never takes the dictionary shortcut, never consults the alignment oracle and records no opcodes, i.e. it is the '
          'pairwise recursion for every input. ' + _DIFFMODEL + 'The complete verbose text view of the implementation is compared with an independent ~70-line Python '
